@@ -183,6 +183,9 @@ func runC08(c *vk.Ctx) {
 		if !s.planted && w.nSteps >= s.plantAt && len(w.pos) > 0 {
 			c08Plant(c, w, s)
 		}
+		if !c08EmissionBound(c, w, op) {
+			return false
+		}
 		return c08Check(c, w, s, op)
 	}
 	runCLHistories(c, "rewards", nHist, opsPer, hooks, nil)
@@ -363,5 +366,46 @@ func c08Check(c *vk.Ctx, w *clWorld, s *c08State, op string) bool {
 	}
 	_ = k
 	c.Class("%s|planted%v|twinsSpread%v|twinsInc%v|farUntouched%v", op, s.planted, twinsSpread, twinsInc, farOK)
+	return true
+}
+
+// c08EmissionBound: an incentive record can never have emitted more than rate x time since it was
+// created ("incentives emitted over time"): emitted = funded amount - remaining amount of the record.
+// The bound runs from the creation time, not the start time: emission is computed lazily per
+// synchronisation interval, and a record with a delayed start is charged, at its first synchronisation
+// after the start, for the whole interval since the previous one (which cannot reach back beyond the
+// creation, because creating a record synchronises the pool).
+func c08EmissionBound(c *vk.Ctx, w *clWorld, op string) bool {
+	if len(w.incents) == 0 {
+		return true
+	}
+	ctx := w.ch.Ctx
+	recs, err := w.ch.App.ConcentratedLiquidityKeeper.GetAllIncentiveRecordsForPool(ctx, w.poolID)
+	if err != nil {
+		return true
+	}
+	now := ctx.BlockTime()
+	for _, rec := range recs {
+		in, ok := w.incents[rec.IncentiveId]
+		if !ok {
+			continue
+		}
+		c.Eval(1)
+		remaining := rec.IncentiveRecordBody.RemainingCoin.Amount
+		emitted := sdkmath.LegacyNewDecFromInt(in.amt).Sub(remaining)
+		elapsed := now.Sub(in.created)
+		bound := sdkmath.LegacyZeroDec()
+		if elapsed > 0 {
+			// rate x seconds, rounded up, plus one unit for the per-sync truncations
+			bound = in.rate.MulInt64(int64(elapsed)).QuoInt64(1_000_000_000).Add(sdkmath.LegacyOneDec())
+		}
+		if emitted.GT(bound) {
+			c.Violate("C08.emitted_more_than_rate_times_time", map[string]any{"op": op}, "after %s: incentive record %d (%s%s at %s/s, created %s before now) has emitted %s, more than rate x time since creation = %s", op, rec.IncentiveId, in.amt, in.denom, in.rate, elapsed, emitted, bound)
+			return false
+		}
+		if emitted.IsPositive() {
+			c.Class("emission-bound|emitted-fraction-%d/4", emitted.MulInt64(4).Quo(sdkmath.LegacyNewDecFromInt(in.amt)).TruncateInt64())
+		}
+	}
 	return true
 }
